@@ -25,10 +25,10 @@ def configs(thorough: bool):
     if thorough:
         cfgs += pairs
         triples = [list(x) for x in itertools.product(PASSES, repeat=3)]
-        cfgs += rnd.sample(triples, 40)
+        cfgs += rnd.sample(triples, 20)
         perms = [list(x) for x in itertools.permutations(PASSES)]
-        cfgs += rnd.sample(perms, 20)
-        cfgs += [rnd.choices(PASSES, k=rnd.randint(6, 8)) for _ in range(10)]
+        cfgs += rnd.sample(perms, 12)
+        cfgs += [rnd.choices(PASSES, k=rnd.randint(6, 8)) for _ in range(5)]
     else:
         cfgs += pairs  # every ordered pair: a pass can create the shape another pass then mishandles
         perms = [list(x) for x in itertools.permutations(PASSES)]
@@ -65,10 +65,16 @@ def run(tier: str) -> int:
         ]
     else:
         fams = [
-            {"Family": "optsq", "MaxLen": 4, "Starts": "zero", "Sample": 0, "workers": 8, "opt_cfgs": cfgs},
-            {"Family": "optsk", "MaxLen": 4, "Starts": "zero", "Sample": 0, "workers": 8, "opt_cfgs": cfgs},
-            {"Family": "optinl", "MaxLen": 4, "Starts": "zero", "Sample": 0, "workers": 8, "opt_cfgs": cfgs},
-            {"Family": "opttrv", "MaxLen": 4, "Starts": "zero", "Sample": 0, "workers": 8, "opt_cfgs": cfgs},
+            # every grammar of the pass families under the default pipeline and each single pass ...
+            {"Family": "optsq", "MaxLen": 4, "Starts": "zero", "Sample": 0, "workers": 8, "opt_cfgs": small},
+            {"Family": "optsk", "MaxLen": 4, "Starts": "zero", "Sample": 0, "workers": 8, "opt_cfgs": small},
+            {"Family": "optinl", "MaxLen": 4, "Starts": "zero", "Sample": 0, "workers": 8, "opt_cfgs": small},
+            {"Family": "opttrv", "MaxLen": 4, "Starts": "zero", "Sample": 0, "workers": 8, "opt_cfgs": small},
+            # ... and a large seeded part of each under every configuration (pairs, triples, permutations, repetitions)
+            {"Family": "optsq", "MaxLen": 3, "Starts": "zero", "Sample": 1000, "workers": 8, "opt_cfgs": cfgs},
+            {"Family": "optsk", "MaxLen": 3, "Starts": "zero", "Sample": 800, "workers": 8, "opt_cfgs": cfgs},
+            {"Family": "optinl", "MaxLen": 3, "Starts": "zero", "Sample": 700, "workers": 8, "opt_cfgs": cfgs},
+            {"Family": "opttrv", "MaxLen": 3, "Starts": "zero", "Sample": 300, "workers": 8, "opt_cfgs": cfgs},
             {"Family": "mods", "MaxLen": 4, "Starts": "zero", "Sample": 0, "workers": 8, "opt_cfgs": small},
             {"Family": "stack", "MaxLen": 4, "Starts": "zero", "Sample": 0, "workers": 8, "opt_cfgs": small},
             {"Family": "core3", "MaxLen": 3, "Starts": "zero", "Sample": 3000, "workers": 8, "opt_cfgs": small},
@@ -76,12 +82,15 @@ def run(tier: str) -> int:
             {"Family": "ci", "MaxLen": 3, "Starts": "zero", "Sample": 0, "workers": 8, "opt_cfgs": small, "style": "min"},
             {"Family": "trivfx", "MaxLen": 3, "Starts": "zero", "Sample": 0, "workers": 8, "opt_cfgs": small},
         ]
+    total = 0
     for f in fams:
         if f["Family"].startswith("opt"):
             f["style"] = "min"  # the passes pattern-match on the AST shape the usual spelling produces
+        before = rep.evaluations
         replay.run_family(rep, f, "opt", ("interp",), nproc=13)
+        total += (rep.evaluations - before) * 2 * len(f["opt_cfgs"])  # each case: every configuration, interpreted and generated
     rep.extra["optimizer_configurations"] = [c if c is not None else "default" for c in cfgs]
-    rep.evaluations = rep.evaluations * 2 * len(cfgs)
+    rep.evaluations = total
     rep.rule = (
         "grammar families aimed at each pass (choices of literals/ranges/insensitive literals/classes in every order; (!(x|y) ~ ANY)* and near-misses in atomic and non-atomic rules "
         "with and without trivia; silent rules of each shape referenced in each context; built-ins; trivia bodies that fuse into SKIP) x optimizer configurations x inputs to MaxLen; "
